@@ -469,8 +469,11 @@ def stepped(case, reg, obs, angle=False):
     d = prng.choice([-1, 1]) * 10.0 ** prng.uniform(-7, -1)
     start = dict(final)
     start['center'] = PixCoord(float(final['center'].x) + d, float(final['center'].y) - 0.6 * d)
+    as_int = prng.random() < 0.3          # the object was created with whole-number sizes (Python ints) and refined later
     for p in final:
-        if p in ('radius', 'width', 'height') and prng.random() < 0.5:
+        if p in ('radius', 'width', 'height') and as_int:
+            start[p] = max(1, int(round(float(final[p]))))
+        elif p in ('radius', 'width', 'height') and prng.random() < 0.5:
             start[p] = final[p] * (1 + 10.0 ** prng.uniform(-7, -2))
         if p == 'angle' and prng.random() < 0.5:
             start[p] = final[p] * (1 + 10.0 ** prng.uniform(-7, -2))
